@@ -440,7 +440,8 @@ namespace occa {
       ++it;
 
       // If we're merging two json objects, recursively merge them
-      if (val.isObject() && has(key)) {
+      // (the key is used literally, not as a '/'-delimited path)
+      if (val.isObject() && (value_.object.find(key) != value_.object.end())) {
         // Reuse prefetch
         json &oldVal = value_.object[key];
         if (oldVal.isObject()) {
